@@ -249,4 +249,82 @@ theorem unauthenticated_is_inert_events (t : Control.Bytes) (ht : cfg.token = so
 
 end
 
+/-! ## non-vacuity (kernel evaluation with the real SHA-256, ChaCha20 and Shamir models) -/
+
+namespace Example
+
+def cfgA : Config := { token := some (ascii "tk"), powDifficulty := 4, cap := 16, minTtl := 30, maxTtl := 100, defaultTtl := 60 }
+
+/-- `eph store "/tmp/a\rb.txt" --ttl 45 --control-token tk` with a 2-byte file -/
+def cA : CliStore := { path := ascii "/tmp/a\rb.txt", payload := ascii "hi", ttl := some 45, token := some (ascii "tk") }
+
+def bytesA (n : Nat) : Control.Bytes :=
+  clientBytes (cliStoreHeaders cA n ++ [(ascii "PAYLOAD-LENGTH", toDec cA.payload.length)]) cA.payload
+
+/-- the hypotheses of `cli_store_accepted` are met: the solver (candidates 0, 1, 2, …) returns 14 at difficulty 4, … -/
+example : Pow.computeStorePow Spec.sha256 (fun _ => (0 : Nat)) Pow.countingStream (cliWork Spec.sha256 cA)
+    (cliDifficulty cfgA.powDifficulty) 0 = some 14 := by decide +kernel
+
+/-- … the inputs fit the framing and the window, … -/
+example : CliStoreWireOk cA 14 ∧ TtlOk cfgA cA.ttl ∧ cA.token = cfgA.token ∧ Pow.cliHint cA.path = some (ascii "ab.txt") :=
+  ⟨⟨by intro t ht; cases ht; decide, by decide, by intro n hn; cases hn; decide, by decide⟩,
+   (show cfgA.minTtl ≤ ((45 : Nat) : Int) ∧ ((45 : Nat) : Int) ≤ cfgA.maxTtl from ⟨by decide, by decide⟩), rfl, by decide⟩
+
+/-- … and the conclusion is what the model computes on those bytes; the solver's nonce matters (13 is refused) -/
+example :
+    (handleClient Spec.sha256 C28.unitOps cfgA 0 (ascii "127.0.0.1") (ServerState.init ()) (bytesA 14)).2.map (·.code)
+      = some "OK_STORE" ∧
+    (handleClient Spec.sha256 C28.unitOps cfgA 0 (ascii "127.0.0.1") (ServerState.init ()) (bytesA 13)).2.map (·.code)
+      = some "ERR_STORE_POW_INVALID" := by decide +kernel
+
+/-- `store_then_list`: C01's example configuration, one admitted STORE, 5 s later: one valid row, listed while live -/
+def wList : ChunkStore.World :=
+  ChunkStore.runModel C01.exCfg
+    ((chunkStoreOps C01.exCfg (fun _ => String.ofList (List.replicate 64 'a')) (fun p => (p.map UInt8.toNat, []))).store
+      (ChunkStore.runModel C01.exCfg (ChunkStore.fresh 0 []) []) (ascii "hi") 45 none)
+    [StoreSpec.Op.advance 5000000000]
+
+example : (∀ e ∈ listSnapshot wList, EntryValid e) ∧ (listSnapshot wList).length = 1 ∧
+    printList (parseResponse 4096 (serialise true (handleList (listSnapshot wList)).wireFields [])) =
+      [ascii "Local chunks: 1",
+       ascii "  ID=aaaaaaaaaaaaaaaaaaaaaaaaaaaaaaaaaaaaaaaaaaaaaaaaaaaaaaaaaaaaaaaa size=2 bytes, state=encrypted, ttl=40s"] := by
+  refine ⟨?_, by decide +kernel, by decide +kernel⟩
+  intro e he
+  have : listSnapshot wList = [{ idHex := List.replicate 64 97, size := 2, encrypted := true, ttl := 40 }] := by decide +kernel
+  rw [this] at he
+  have : e = { idHex := List.replicate 64 97, size := 2, encrypted := true, ttl := 40 } := by simpa using he
+  subst this
+  exact ⟨by decide, by decide, by decide, by decide⟩
+
+/-- `store_then_fetch`: C11's pipeline with a 1-of-1 sharing, a non-zero key; the daemon after the STORE streams the payload -/
+def pcfg : StorePipeline.Config := { shardThreshold := 1, shardTotal := 1, minTtl := 30, maxTtl := 100, defaultTtl := 60 }
+def draws : Draws := { key := List.replicate 32 7, nonce := List.replicate 12 1, rk := List.replicate 32 9, rd := fun _ => 5 }
+def opsP : NodeOps StorePipeline.NodeState :=
+  pipelineOps pcfg 0 (fun _ => draws) (List.replicate 32 9)
+    (fun uri => if uri = ascii "eph://m" then some (Spec.sha256 (ascii "hi")) else none) (fun st _ => some st)
+def fetchReq : Request :=
+  { fields := [(ascii "COMMAND", ascii "FETCH"), (ascii "TOKEN", ascii "tk"), (ascii "MANIFEST", ascii "eph://m"),
+               (ascii "STREAM", ascii "client")] }
+
+example : C11.ShardCfg pcfg ∧ C11.ChunkKey draws.key ∧ draws.nonce.length = 12 ∧ IsCliFetch cfgA.token (ascii "eph://m") fetchReq :=
+  ⟨⟨by decide, by decide⟩, ⟨by decide, by decide⟩, by decide, ⟨by decide, by decide, by decide, by decide⟩⟩
+
+example : (handleRequest Spec.sha256 opsP cfgA 5 (ascii "127.0.0.1")
+    (afterStore opsP cfgA 0 (ascii "127.0.0.1") (ServerState.init {}) (ascii "hi") 45 none) fetchReq).2.streamed
+      = some (ascii "hi") := by decide +kernel
+
+/-- `unauthenticated_is_inert`: a STOP without the token, a FETCH with OUT and a wrong token, then the authenticated STORE:
+    the store is answered as if it had come alone, and the daemon has not been stopped -/
+example :
+    let evs := [Event.connect (ascii "10.0.0.9") (ascii "COMMAND:STOP\n\n"),
+                Event.connect (ascii "10.0.0.9") (ascii "COMMAND:FETCH\nTOKEN:tK\nMANIFEST:eph://m\nOUT:/tmp/x\n\n"),
+                Event.connect (ascii "127.0.0.1") (bytesA 14)]
+    (evs.map (authenticated (ascii "tk"))) = [false, false, true] ∧
+    ((runView Spec.sha256 C28.unitOps cfgA 0 (ServerState.init ()) evs).1.map fun p => p.2.map (·.code)) =
+      [some "ERR_STOP_UNAUTHENTICATED", some "ERR_FETCH_UNAUTHENTICATED", some "OK_STORE"] ∧
+    (runView Spec.sha256 C28.unitOps cfgA 0 (ServerState.init ()) evs).2.2.stopCalls = 0 ∧
+    (runView Spec.sha256 C28.unitOps cfgA 0 (ServerState.init ()) evs).2.2.transportStopped = false := by decide +kernel
+
+end Example
+
 end EphVerif.SystemControl
